@@ -187,6 +187,14 @@ struct H {
                             return c;
                         });
     }
+    // coverage-guided mode: selector byte, then entropy
+    static bool from_fuzz(const uint8_t *d, size_t n, Case &c) {
+        pbt::FuzzBytes f(d, n);
+        static const int w[] = {1, 2, 4, 1};
+        c.width = w[f.sel() & 3];
+        c.bytes = f.rest();
+        return true;
+    }
     static std::string to_text(const Case &c) {
         pbt::KV     kv;
         std::string hex;
@@ -232,4 +240,4 @@ struct H {
 
 } // namespace
 
-int main(int argc, char **argv) { return pbt::run_main<H>(argc, argv); }
+PBT_MAIN(H)
